@@ -454,3 +454,52 @@ Example C17_ionq_op_ctrl_z_example :
      = Some (GMat [2%nat; 2%nat] (ionq_gate_matrix K8Ops Ncnot []), [0%nat; 1%nat])
   /\ ionq_op_gop K8Ops false 2 (IGate "cnot"%string [] [] [1%nat]) = None.
 Proof. exact ionq_op_ctrl_z_example. Qed.
+
+(* ---- results of a BATCH job (Vendor/IonQBatch.v): the answer holds one histogram per child circuit in submission order,
+   each under an opaque child id; position k is read with entry k of the metadata ---- *)
+From VF Require Import Codec.MetaChunks Vendor.IonQBatch Vendor.IonQBatchProofs.
+
+Theorem C17_batch_qpu_length : forall metas answer,
+  length (batch_qpu metas answer) = Nat.min (length metas) (length answer).
+Proof. exact batch_qpu_length. Qed.
+Print Assumptions C17_batch_qpu_length.
+
+Theorem C17_batch_qpu_nth : forall metas answer k dm dh, (k < length metas)%nat -> (k < length answer)%nat ->
+  nth k (batch_qpu metas answer) [] = child_qpu (nth k metas dm) (snd (nth k answer dh)).
+Proof. exact batch_qpu_nth. Qed.
+Print Assumptions C17_batch_qpu_nth.
+
+Theorem C17_batch_sim_nth : forall metas answer picks k dm dh dp,
+  (k < length metas)%nat -> (k < length answer)%nat -> (k < length picks)%nat ->
+  nth k (batch_sim metas answer picks) [] = child_sim (nth k metas dm) (snd (nth k answer dh)) (nth k picks dp).
+Proof. exact batch_sim_nth. Qed.
+Print Assumptions C17_batch_sim_nth.
+
+(* the child ids are opaque: the same histograms in the same order decode alike under any ids *)
+Theorem C17_batch_qpu_ids_opaque : forall metas a a', map snd a = map snd a' -> batch_qpu metas a = batch_qpu metas a'.
+Proof. exact batch_qpu_ids_opaque. Qed.
+Print Assumptions C17_batch_qpu_ids_opaque.
+
+Theorem C17_batch_sim_ids_opaque : forall metas a a' picks,
+  map snd a = map snd a' -> batch_sim metas a picks = batch_sim metas a' picks.
+Proof. exact batch_sim_ids_opaque. Qed.
+Print Assumptions C17_batch_sim_ids_opaque.
+
+(* reading the answer in the order of the ids is the vendor's reading when the ids ascend in submission order ... *)
+Theorem C17_batch_by_id_ascending : forall metas answer,
+  ascending (map fst answer) = true -> batch_qpu_by_id metas answer = batch_qpu metas answer.
+Proof. exact batch_by_id_ascending. Qed.
+Print Assumptions C17_batch_by_id_ascending.
+
+Example C17_batch_by_id_ascending_example :
+  ascending (map fst (witness_answer [97%Z] [98%Z])) = true
+  /\ batch_qpu witness_metas (witness_answer [97%Z] [98%Z]) = [[Some [[1%Z; 0%Z]]]; [Some [[0%Z; 1%Z]]]].
+Proof. exact batch_by_id_ascending_example. Qed.
+
+(* ... and gives every circuit the outcomes of another one otherwise: two circuits on two qubits measuring both, the first
+   flips qubit 0, the second qubit 1, children named "b" and "a" (replayed on the implementation by the batch-results stream) *)
+Theorem C17_batch_by_id_refuted : exists metas answer,
+  batch_qpu metas answer = [[Some [[1%Z; 0%Z]]]; [Some [[0%Z; 1%Z]]]]
+  /\ batch_qpu_by_id metas answer = [[Some [[0%Z; 1%Z]]]; [Some [[1%Z; 0%Z]]]].
+Proof. exact batch_by_id_refuted. Qed.
+Print Assumptions C17_batch_by_id_refuted.
